@@ -90,7 +90,7 @@ PROG_ASSUME = ["concrete semantics of DESIGN.md section 2.3: mathematical intege
                "int64-weight DBM domains (the default zones/octagons): constants <= 10^6 and cases where an abstract bound or a concrete value "
                "exceeds 2^40 are truncated (overflow is documented as unchecked in graph_config.hpp)"]
 CHECKS["C01"] = {
-    "jobs": [job("h_fwd-" + d, 700, 2, 12000, 4, fuzz_secs=300, fuzz_procs=2) for d in FWD_Q],
+    "jobs": [job("h_fwd-" + d, 1500, 2, 12000, 4, fuzz_secs=300, fuzz_procs=2) for d in FWD_Q],
     "rule": "choice-tape CrabIR programs (structured seq/if/while nests and unstructured digraphs up to 10 blocks, 2-6 ints, optional 64-bit ints, "
             "booleans for boolean domains, all statement kinds the domain supports) x widening delay 0-5, descending iterations 0-3, thresholds "
             "{0,1,5,20}, liveness on/off, initial value top or constraints around a first state; 4-12 concrete executions per program; after every "
@@ -123,10 +123,11 @@ CHECKS["C03"] = {
     "min_nontrivial_frac": 0.1,
 }
 CHECKS["C04"] = {
-    "jobs": [job("h_hist-" + d, 2000, 2, 40000, 4, fuzz_secs=300, fuzz_procs=2, env={"VERIF_TAPE_SCALE": "12"}) for d in HIST_Q],
+    "jobs": [job("h_hist-" + d, 2200, 2, 30000, 4, fuzz_secs=300, fuzz_procs=2, env={"VERIF_TAPE_SCALE": "12"}) for d in HIST_Q],
     "rule": "the C03 histories with the lattice laws checked at every step: x <= x (also on a copy), bottom <= x, x <= top, A <= B answering yes implies "
             "every witness of A is a member of B (A,B arbitrary reachable values, or B derived from A by join/forget to obtain yes-answers), witnesses of "
-            "both operands in the join, common witnesses in the meet, is_bottom/is_top after set_to_*/make_*, not is_bottom while a witness exists; "
+            "both operands in the join, common witnesses in the meet, is_bottom/is_top after set_to_*/make_*, not is_bottom while a witness exists; every 8 steps and at the end an "
+            "all-pairs sweep over the six values of the history: bottom on the left and top on the right must answer yes, every yes-answer is checked against the witnesses of the left; "
             "non-trivial = >= 1 yes-answer of <= and >= 2 values neither top nor bottom; distinct = hash of the decoded history",
     "assumptions": PROG_ASSUME,
     "min_nontrivial_frac": 0.1,
@@ -178,7 +179,7 @@ CHECKS["C12"] = {
 
 ARR_Q = ["aa_int", "aa_sdbm", "aa_bool_int", "as_disint", "as_sdbm", "as_bool_int"]
 CHECKS["C14"] = {
-    "jobs": [job("h_fwd-" + d, 700, 2, 12000, 4, fuzz_secs=300, fuzz_procs=2) for d in ARR_Q],
+    "jobs": [job("h_fwd-" + d, 1500, 2, 12000, 4, fuzz_secs=300, fuzz_procs=2) for d in ARR_Q],
     "rule": "the C01 program generator with array statements weighted up (array_init of every array in the entry block most of the time, array_init, "
             "weak stores at constant / aligned symbolic (es*v) / arbitrary symbolic indices, strong stores only on single-cell arrays, store_range, "
             "array_assign, loads; element size = byte width of the scalars, 4 or 8) over array_adaptive<interval|split_dbm|flat-bool+interval> and "
